@@ -242,6 +242,17 @@ def r6(run, db):
             st = opt_shape(blk, ops[1])
             want = ["Some"] if rt == "S" else ["None"]
             run.check(st == want, "%s|Ok-state" % rt, "final state payload is %s" % want[0], "final state payload shape %s (expected %s)" % (st, want), blk.where(s.get("l")))
+            if st == ["Some"]:
+                # "kill (no state)": the state-carrying Ok outcome must be unreachable once the loop reported was_killed
+                from .c01 import loop_result_flag_edges
+                lb, law, flags = loop_result_flag_edges(db, m, rt)
+                oks = [site for site, st_ in lb.aggregates(adt="std::result::Result", variant="Ok") if st_["lhs"][0] == 0 and not st_["lhs"][1]]
+                run.anchor("%s loop-body Ok returns" % rt, len(oks), 1, lb.where())
+                run.check(bool(flags), "%s|killed-flag" % rt, "the loop result's was_killed flag is tested in the loop body", "the loop body does not test the was_killed flag of the loop result", lb.where())
+                for o in oks:
+                    good = any(nk and lb.edge_dominates(nk, o) for k, nk in flags)
+                    run.check(good, "%s|Ok(state)-only-if-not-killed" % rt, "the loop body returns Ok (which the task reports together with the final state) only on the not-killed edge",
+                              "the loop body returns Ok(reason) also when the loop reported was_killed, and the task turns every Ok into ActorTerminated(.., Some(state), ..): a killed actor is reported with its state (documented and required: no state after a kill; a kill landing in post_start/post_stop already reports None)", lb.where())
         lc_ = on_edge(e_c)
         run.check(len(lc_) == 1 and lc_[0][1]["rv"]["variant"] == "ActorTerminated", "%s|Cancelled->ActorTerminated" % rt, "Err(Cancelled) -> ActorTerminated", "Err(Cancelled) maps to %s" % [s["rv"]["variant"] for _, s in lc_], blk.where())
         if len(lc_) == 1:
@@ -298,23 +309,33 @@ def r7(run, db):
     m = model(db)
     for rt in m.runtimes():
         sb = m.start_body(rt)
-        mr = [c for c in sb.calls() if c.callee and c.callee.endswith("::mark_running")]
         allmr = [c for c in db.calls_of("mark_running") if rt == "S" and "thread_local" not in c.fn.id or rt == "T" and "thread_local" in c.fn.id]
-        run.check(len(mr) == 1 and len(allmr) == 1, "%s|mark_running-site" % rt, "mark_running is called once, in the body that races pre_start", "mark_running is called at %s" % [c.where() for c in allmr], sb.where())
-        if not mr:
+        # the call sits in the body that races pre_start, or in a body lexically nested in it (e.g. the loop task), in
+        # which case the nested body's creation site stands for the call when dominance in the start body is asked
+        sites_in_sb = []
+        for x in allmr:
+            if x.fn.id == sb.id:
+                sites_in_sb.append((x, x.site))
+            else:
+                for par, csite in enclosing_chain(db, x.fn)[1:]:
+                    if par.id == sb.id:
+                        sites_in_sb.append((x, csite))
+        run.check(len(allmr) == 1 and len(sites_in_sb) == 1, "%s|mark_running-site" % rt, "mark_running is called once, in (or lexically under) the body that races pre_start", "mark_running is called at %s" % [c.where() for c in allmr], sb.where())
+        if not sites_in_sb:
             continue
-        c = mr[0]
+        c, csite_sb = sites_in_sb[0]
+        mr = [c] if c.fn.id == sb.id else []
         ps = m.sink_calls_for(rt + ".pre_start")
         aw = await_of_call(sb, ps[0]) if ps else []
         e = nested_variant_edge(sb, aw[0].poll, ["Ready", "Ok", "Ok", "Ok"]) if aw else None
-        run.check(e is not None and sb.edge_dominates(e, c.site), "%s|mark_running-after-pre_start-ok" % rt, "mark_running is dominated by the Ok(Ok(Ok)) edge of the pre_start race (a failed start emits nothing)",
+        run.check(e is not None and sb.edge_dominates(e, csite_sb), "%s|mark_running-after-pre_start-ok" % rt, "mark_running is dominated by the Ok(Ok(Ok)) edge of the pre_start race (a failed start emits nothing)",
                   "mark_running can happen although pre_start has not succeeded: a failed/cancelled start would emit a terminal event", c.where())
         if rt == "S":
             links = [x for x in sb.calls() if x.is_("ActorCell::try_link")]
             te = true_edge(sb, links[0]) if links else None
             # the link is optional (supervisor: Option); require: no path from the refused edge reaches mark_running
             fe = false_edge(sb, links[0]) if links else None
-            run.check(fe is not None and c.site not in edge_path_sites(sb, [fe]) and links and not sb.reaches_after(c.site, links[0].site) and sb.reaches_after(links[0].site, c.site), "S|mark_running-after-link",
+            run.check(fe is not None and csite_sb not in edge_path_sites(sb, [fe]) and links and not sb.reaches_after(csite_sb, links[0].site) and sb.reaches_after(links[0].site, csite_sb), "S|mark_running-after-link",
                       "mark_running comes after the (optional) link and is unreachable from a refused link", "the guard is armed for notification before the supervisor link is attempted: a refused link (supervisor shutting down) makes the failed spawn emit a terminal event", c.where())
         # ActorStarted
         lb = m.loop_body(rt)
